@@ -15,18 +15,20 @@ from . import transport as TR
 from .c04 import _ge, _eqz, CLASS
 
 REG0 = 35100
+REQ_STEPS = ("silent", "answer", "exception")     # plan steps that are requests (the others: close, newloop, drain)
 
 
 class ComboScript:
     """request 0 follows the inner (symbolic or dict) script; later requests follow fixed behaviours"""
 
     def __init__(self, inner, behaviours):
-        self.inner, self.beh = inner, behaviours     # behaviours: {req index: 'silent' | 'answer'}
+        self.inner, self.beh = inner, behaviours     # behaviours: {req index: 'silent' | 'answer' | 'exception'}
+        self.log = {}
 
     def kind(self, i, req=0):
         if req == 0:
             return self.inner.kind(i, 0)
-        return TR.K["drop"] if self.beh.get(req) == "silent" else TR.K["answer"]
+        return TR.K[{"silent": "drop", "exception": "exception"}.get(self.beh.get(req), "answer")]
 
     def delay(self, i, which="d", req=0, hi=None):
         if req == 0:
@@ -34,7 +36,8 @@ class ComboScript:
         return 0
 
     def small(self, name, lo, hi):
-        return self.inner.small(name, lo, hi)
+        self.log[name] = self.inner.small(name, lo, hi)
+        return self.log[name]
 
     def value(self, name, lo, hi):
         return self.inner.value(name, lo, hi)
@@ -59,16 +62,19 @@ class HistoryHarness(Harness):
         self.params = {"scenario": self.scen_params, "kinds": self.kinds, "first": first, "second": second, "plan": self.plan}
 
     def scenario(self):
-        return TR.Scenario(**{k: v for k, v in self.scen_params.items() if k != "tx_start"})
+        s = TR.Scenario(**{k: v for k, v in self.scen_params.items() if k != "tx_start"})
+        if self.prop == "C08":
+            s.exc_range = (1, 4)
+        return s
 
     # -- run -------------------------------------------------------------------------------------------------
     def _run(self, M, script0):
         scen = self.scenario()
         T, R = scen.T, scen.retries
-        nreq = 1 + sum(1 for s in self.plan if s in ("silent", "answer"))
+        nreq = 1 + sum(1 for s in self.plan if s in REQ_STEPS)
         beh, j = {}, 0
         for s in self.plan:
-            if s in ("silent", "answer"):
+            if s in REQ_STEPS:
                 j += 1
                 beh[j] = s
         script = ComboScript(script0, beh)
@@ -101,20 +107,12 @@ class HistoryHarness(Harness):
                 return send(sock, data, n)
             world.peer_send, world.peer_connect = on_send, conn
 
-            def do_request(j):
-                cmd = inv._read_command(REG0 + 10 * j, scen.count)
-                r = {"j": j, "t0": world.now, "exc": None, "result": None, "abort": None, "tx0": len(world.transmissions),
-                     "delivered_before": world.recv_count}
-                try:
-                    r["result"] = vworld.run(loops[-1], inv._read_from_socket(cmd))
-                except vworld.Hang:
-                    r["abort"] = "hang"
-                except vworld.LiveLock as e:
-                    r["abort"] = "livelock: " + str(e)
-                except Exception as e:  # noqa: BLE001
-                    r["exc"] = e
-                except asyncio.CancelledError as e:
-                    r["exc"] = e
+            def begin(j):
+                return {"j": j, "t0": world.now, "exc": None, "result": None, "abort": None, "tx0": len(world.transmissions),
+                        "delivered_before": world.recv_count}
+
+            def finish(r):
+                j = r["j"]
                 r["t_done"] = world.now
                 r["tx"] = [x for x in world.transmissions if rix(bytes(x[1])) == j]
                 first_ix = [i for i, x in enumerate(world.transmissions) if rix(bytes(x[1])) == j][:1]
@@ -125,39 +123,79 @@ class HistoryHarness(Harness):
                 r["outcome"] = TR.classify(M, r["exc"]) if r["abort"] is None else r["abort"]
                 r["count"] = getattr(r["exc"], "consecutive_failures_count", None)
                 obs.reqs.append(r)
-                return r["abort"] is None
+
+            current = [None]
+
+            async def do_request(j):
+                # awaited back to back inside ONE task, as a caller's coroutine does (callbacks that an earlier request
+                # left in the loop's ready queue run while the next request is already under way)
+                cmd = inv._read_command(REG0 + 10 * j, scen.count)
+                r = current[0] = begin(j)
+                try:
+                    r["result"] = await inv._read_from_socket(cmd)
+                except Exception as e:  # noqa: BLE001
+                    r["exc"] = e
+                except asyncio.CancelledError as e:
+                    r["exc"] = e
+                finish(r)
+                current[0] = None
+                if self.prop == "C05" and j == 0:
+                    # C05 speaks about a *silent* follow-up request: peer events of the first request that are still in
+                    # flight are dropped (confusing a late datagram with the next answer is C06/C07's subject)
+                    scen.generation[0] += 1
+                    for sk in list(world.sockets.values()):
+                        sk.rx.clear()
+
+            async def segment(steps, j0):
+                j = j0
+                for s in steps:
+                    if s == "first":
+                        await do_request(0)
+                    elif s in REQ_STEPS:
+                        j += 1
+                        await do_request(j)
+                    elif s == "close":
+                        try:
+                            await inv._protocol.close()
+                        except Exception as e:  # noqa: BLE001
+                            obs.steps.append(("close raised", type(e).__name__))
+                        obs.steps.append(("open after close", len(transports())))
 
             scen.generation = [0]
-            ok = do_request(0)
-            if self.prop == "C05":
-                # C05 speaks about a *silent* follow-up request: peer events of the first request that are still in
-                # flight are dropped (confusing a late datagram with the next answer is C06/C07's subject)
-                scen.generation[0] += 1
-                for sk in list(world.sockets.values()):
-                    sk.rx.clear()
-            j = 0
             obs.steps = []
+            # the plan is cut at 'newloop' steps: each piece runs as one coroutine on the loop current at that time
+            pieces, cur_piece = [], ["first"]
             for s in self.plan:
-                if not ok:
-                    break
-                if s in ("silent", "answer"):
-                    j += 1
-                    ok = do_request(j)
-                elif s == "close":
-                    try:
-                        vworld.run(loops[-1], inv._protocol.close())
-                    except BaseException as e:  # noqa: BLE001
-                        obs.steps.append(("close raised", type(e).__name__))
-                    obs.steps.append(("open after close", len(transports())))
-                elif s == "newloop":
+                if s == "newloop":
+                    pieces.append(cur_piece)
+                    cur_piece = []
+                else:
+                    cur_piece.append(s)
+            pieces.append(cur_piece)
+            ok, j0 = True, 0
+            for pi, piece in enumerate(pieces):
+                if pi > 0:
                     # successive asyncio.run() calls: the previous loop is closed, a new one is used from now on
                     try:
                         loops[-1].close()
                     except BaseException as e:  # noqa: BLE001
                         obs.steps.append(("loop close raised", type(e).__name__))
                     loops.append(world.new_loop())
-                elif s == "drain":
-                    pass
+                try:
+                    vworld.run(loops[-1], segment(piece, j0))
+                except vworld.Hang:
+                    ok = False
+                    r = current[0] or begin(j0)
+                    r["abort"] = "hang"
+                    finish(r)
+                except vworld.LiveLock as e:
+                    ok = False
+                    r = current[0] or begin(j0)
+                    r["abort"] = "livelock: " + str(e)
+                    finish(r)
+                if not ok:
+                    break
+                j0 += sum(1 for s in piece if s in REQ_STEPS)
             obs.abort = None if ok else obs.reqs[-1]["abort"]
             obs.drain_abort = None
             if ok:
@@ -171,6 +209,8 @@ class HistoryHarness(Harness):
             gc.collect()
             obs.fds_open_after_drain = len(world.open_sockets()) if "newloop" not in self.plan else None
             obs.t_end = world.now
+            obs.small = dict(script.log)
+            obs.delivered_reqs = list(getattr(scen, "delivered_reqs", []))
         return obs
 
     # -- monitors ----------------------------------------------------------------------------------------------
@@ -181,7 +221,32 @@ class HistoryHarness(Harness):
         if obs.abort is not None:
             fail(f"request {len(obs.reqs) - 1} did not terminate ({obs.abort.split(':')[0]})", obs.abort)
         reqs = obs.reqs
-        steps_req = ["scripted"] + [s for s in self.plan if s in ("silent", "answer")]
+        steps_req = ["scripted"] + [s for s in self.plan if s in REQ_STEPS]
+        if P == "C08":
+            # every request of the history that the peer answers with an exception frame (also right after an earlier
+            # rejected request on the same object) fails at once, without retransmission, with the standard reason
+            from .validators import MODBUS_REASONS
+            reasons = dict(MODBUS_REASONS)
+            for r, kind in zip(reqs, steps_req):
+                if kind == "scripted":
+                    ks = [self.first, self.second]
+                    pos = 0 if self.first == "exception" else 1 if (self.first == "drop" and self.second == "exception") else None
+                else:
+                    pos = 0 if kind == "exception" else None
+                if pos is None:
+                    continue
+                code = obs.small.get(f"exc{r['j']}_{pos}")
+                if r["outcome"] != "rejected":
+                    fail("exception answer did not surface as RequestRejectedException", f"request {r['j']}: {r['outcome']}")
+                want = reasons.get(code, "UNKNOWN")
+                if getattr(r["exc"], "message", None) != want:
+                    fail("RequestRejectedException carries the wrong reason", f"request {r['j']} code={code}: {getattr(r['exc'], 'message', None)!r}")
+                if len(r["tx"]) != pos + 1:
+                    fail("a retransmission followed the exception answer (or an earlier one is missing)", f"request {r['j']}: {len(r['tx'])}")
+                if r["j"] > 0:
+                    check(_eqz(r["t_done"], r["tx"][-1][0]), "request did not fail at the arrival of the exception frame",
+                          f"request {r['j']}: t_done={r['t_done']!r}")
+            return
         if P == "C05":
             for r, kind in zip(reqs, steps_req):
                 n = len(r["tx"])
@@ -223,8 +288,15 @@ class HistoryHarness(Harness):
                 if st[0] in ("close raised",):
                     fail("close() raised", st[1])
             for r, kind in zip(reqs, steps_req):
+                # (a datagram of an earlier request that arrives while this one is under way cannot be told from its own
+                # answer on these framings: C06/C07's subject, not connection management)
                 if kind == "answer" and not r["outcome"].startswith("response"):
-                    fail("the request after an earlier outcome does not work against an answering peer", r["outcome"])
+                    conds = [_ge(t, r["t0"]) for (t, q) in obs.delivered_reqs if q < r["j"]]
+                    if any(c is True for c in conds):
+                        continue
+                    zs = [c for c in conds if c is not False]
+                    check(z3.Or(zs) if zs else False,
+                          "the request after an earlier outcome does not work against an answering peer", r["outcome"])
             if scen.keep_alive:
                 for a, b, i in zip(reqs, reqs[1:], range(len(reqs))):
                     between = self._between(i)
@@ -243,7 +315,7 @@ class HistoryHarness(Harness):
         """steps between request i and request i+1 of the plan"""
         idx, out = 0, []
         for s in self.plan:
-            if s in ("silent", "answer"):
+            if s in REQ_STEPS:
                 idx += 1
                 if idx > i + 1:
                     break
@@ -261,7 +333,9 @@ class HistoryHarness(Harness):
     def symbolic(self, ex):
         G = shimmed()
         G.modbus._modbus_checksum = TR.hybrid_crc(G.orig_checksum)
-        script = self._mk_script(TR.SymScript(self.kinds, self.scenario().T))
+        T = self.scenario().T
+        # C08 speaks about exception frames that arrive before the timeout of their transmission
+        script = self._mk_script(TR.SymScript(self.kinds, T, max_delay=T - 1 if self.prop == "C08" else None))
         obs = self._run(G, script)
 
         def check(c, label, detail=""):
